@@ -12,7 +12,10 @@
  * runtime is otherwise free-running.  Consecutive identical "flag reads 0" of one spinning worker are logged once.
  *
  * stdin, one line per incarnation:  C <op> <op> ...   ops: sp (spawn workload, waited), dw<id> ew<id> (qthread_disable_/
- * enable_worker), ds<i> es<i> (disable/enable shepherd), lt<n> (fork n tiny tasks and do NOT wait), sl<ms> (sleep)
+ * enable_worker), ds<i> es<i> (disable/enable shepherd), lt<n> / ls<n> (fork n tiny / ~30 us tasks and do NOT wait: finalize
+ * finds the workers busy and the queues non-empty), sl<ms> (sleep), fd<us> (the finalizer pauses <us> before each
+ * terminator enqueue: widens the window in which workers dequeue ordinary tasks during finalize)
+ * cd<id> (a qthread_disable_worker(id) lands right after the finalizer's test of that worker's flag), al<s> (watchdog seconds)
  * stdout:  Y (start-up facts)  I (flags at the entry of finalize)  E <events>  Z (after finalize); TIMEOUT + E on a hang. */
 #ifdef HAVE_CONFIG_H
 # include "config.h"
@@ -36,7 +39,7 @@
 #include "qt_subsystems.h"
 
 /* ------------------------------------------------------------------------------------------------ event log */
-enum { EV_FE = 1, EV_FR, EV_FC, EV_WR, EV_WG, EV_WQ, EV_WX, EV_FJ, EV_FS, EV_FD, EV_Fj, EV_XR, EV_XC };
+enum { EV_FE = 1, EV_FR, EV_FC, EV_WR, EV_WG, EV_WQ, EV_WX, EV_FJ, EV_FS, EV_FD, EV_Fj, EV_XR, EV_XC, EV_XD };
 struct c19s_ev { int kind, a, b, c, d, e; };
 #define C19S_MAXEV 20000
 static struct c19s_ev c19s_evs[C19S_MAXEV];
@@ -72,6 +75,7 @@ static int c19s_shep_of_queue(qt_threadqueue_t *q)
 }
 static uintptr_t c19s_load(void *p, size_t sz) { return sz == 1 ? (uintptr_t)*(volatile uint8_t *)p : *(volatile uintptr_t *)p; }
 
+static volatile int c19s_cd_target, c19s_alarm_s = 60;
 static uintptr_t c19s_read(void *p, size_t sz)
 {
     if (!c19s_on) return c19s_load(p, sz);
@@ -79,7 +83,15 @@ static uintptr_t c19s_read(void *p, size_t sz)
     c19s_lock();
     uintptr_t v = c19s_load(p, sz);
     if (c19s_on && (k = c19s_ident(p, &i, &j))) {
-        if (c19s_me < 0) { c19s_log(EV_FR, k, i, j, (int)v, 0); }
+        if (c19s_me < 0) {
+            c19s_log(EV_FR, k, i, j, (int)v, 0);
+            if (k == 1 && c19s_cd_target > 0 && c19s_cd_target == j * (int)qlib->nshepherds + i) {
+                /* op cd<id>: a qthread_disable_worker(id) of some other thread lands right after the finalizer's test of that flag */
+                c19s_log(EV_XD, i * (int)qlib->nworkerspershep + j, 0, 0, 0, 0);
+                c19s_cd_target = 0;
+                qthread_disable_worker((qthread_worker_id_t)(j * (int)qlib->nshepherds + i));
+            }
+        }
         else if (k == 1 && c19s_me == i * (int)qlib->nworkerspershep + j) {
             if (!(v == 0 && c19s_last_r0)) c19s_log(EV_WR, i, j, (int)v, 0, 0);
             c19s_last_r0 = (v == 0);
@@ -100,8 +112,10 @@ static void *c19s_cas(void **p, void *o, void *n, size_t sz)
     c19s_unlock();
     return r;
 }
+static volatile int c19s_fin_delay_us;      /* op fd<us>: the finalizer pauses before every terminator enqueue (schedule perturbation) */
 static void c19s_enq(qt_threadqueue_t *restrict q, qthread_t *restrict t)
 {
+    if (c19s_on && c19s_me < 0 && c19s_fin_delay_us > 0 && t->thread_state == QTHREAD_STATE_TERM_SHEP) usleep(c19s_fin_delay_us);
     if (c19s_on) {
         c19s_lock();
         if (c19s_on) {
@@ -187,7 +201,7 @@ static void c19s_stage_late(void) { c19s_stage(2); }
 /* ------------------------------------------------------------------------------------------------ driver */
 static void dump_events(void)
 {
-    static const char *nm[] = { "?", "FE", "FR", "FC", "WR", "WG", "WQ", "WX", "FJ", "FS", "FD", "Fj", "XR", "XC" };
+    static const char *nm[] = { "?", "FE", "FR", "FC", "WR", "WG", "WQ", "WX", "FJ", "FS", "FD", "Fj", "XR", "XC", "XD" };
     int n = c19s_evn;
     printf("E n=%d overflow=%d ev=", n, c19s_overflow);
     for (int i = 0; i < n; i++) {
@@ -217,6 +231,7 @@ static int wl_spawn(void)
 }
 static aligned_t lt_count;
 static aligned_t t_tiny(void *a) { qthread_incr(&lt_count, 1); return 0; }
+static aligned_t t_slow(void *a) { for (volatile int i = 0; i < 30000; i++) ; qthread_incr(&lt_count, 1); return 0; }
 
 int main(void)
 {
@@ -227,9 +242,9 @@ int main(void)
         char *save, *tok = strtok_r(line, " \n", &save);
         if (!tok || strcmp(tok, "C")) continue;
         cyc++;
-        alarm(45);
+        alarm(c19s_alarm_s);
         phase = "initialize";
-        c19s_created = 0; c19s_evn = 0; c19s_overflow = 0;
+        c19s_created = 0; c19s_evn = 0; c19s_overflow = 0; c19s_fin_delay_us = 0; c19s_cd_target = 0; c19s_alarm_s = 60;
         if (qthread_initialize() != QTHREAD_SUCCESS) { printf("ERR initialize\n"); return 2; }
         int S = (int)qlib->nshepherds, W = (int)qlib->nworkerspershep;
         printf("Y cycle=%d S=%d W=%d created=%d nw=%d ns=%d flags=", cyc, S, W, c19s_created, (int)qthread_num_workers(), (int)qthread_num_shepherds());
@@ -245,7 +260,11 @@ int main(void)
             else if (!strncmp(tok, "ds", 2)) qthread_disable_shepherd((qthread_shepherd_id_t)v);
             else if (!strncmp(tok, "es", 2)) qthread_enable_shepherd((qthread_shepherd_id_t)v);
             else if (!strncmp(tok, "sl", 2)) usleep(1000 * v);
+            else if (!strncmp(tok, "fd", 2)) c19s_fin_delay_us = v;
+            else if (!strncmp(tok, "cd", 2)) c19s_cd_target = v;
+            else if (!strncmp(tok, "al", 2)) { c19s_alarm_s = v; alarm(v); }
             else if (!strncmp(tok, "lt", 2)) { lt_count = 0; lt = v; for (int i = 0; i < v; i++) qthread_fork(t_tiny, NULL, NULL); }
+            else if (!strncmp(tok, "ls", 2)) { lt_count = 0; lt = v; for (int i = 0; i < v; i++) qthread_fork(t_slow, NULL, NULL); }
         }
         phase = "finalize";
         qthread_internal_cleanup_early(c19s_stage_early);
